@@ -291,7 +291,32 @@ def o_c13(kind, case, r):
     return None
 
 
+def early_entry(r):
+    """interactive cache: a worker thread creates the entry under its final name and only afterwards
+    lets its own process execute the function (the entry is then visible, without output, for the
+    whole duration of the call)"""
+    owner = {lab[1]: pick for en, pick, lab in r["trace"] if lab[0] == "spawn"}     # process -> worker thread
+    opened = {}      # worker thread -> (file, step) of an entry it has opened for writing and not yet given an output
+    for step, (en, pick, lab) in enumerate(r["trace"]):
+        if lab[0] == "h5" and str(lab[2]).endswith(".h5out"):
+            if lab[1] == "open-a":
+                opened[pick] = (lab[2], step)
+            elif (lab[1] == "ds" and lab[3] == "output") or lab[1] == "close":
+                if lab[1] == "ds":
+                    opened.pop(pick, None)
+        elif lab[0] == "body" and owner.get(pick) in opened:
+            fn, st = opened[owner[pick]]
+            if fn == "k%s.h5out" % lab[1]:
+                return ("%s was created under its final name at step %d, before the function of that call was executed "
+                        "(step %d): every identical call looked up meanwhile is served an entry without output" % (fn, st, step))
+    return None
+
+
 def o_c14(kind, case, r):
+    if kind != "file":
+        w = early_entry(r)
+        if w:
+            return w
     for k, s in enumerate(r["sessions"]):
         for fn, ds in s["dir"].items():
             if not fn.endswith(".h5out"):
@@ -302,6 +327,20 @@ def o_c14(kind, case, r):
                     return "after session %d: %s is accepted (has output) but incomplete: %r" % (k + 1, fn, names)
             else:
                 if not complete_entry(ds):
+                    # D10 is about a writer that was cut short (or overtaken while still writing); an entry
+                    # whose writer ran to its close() and which still lacks a dataset is something else
+                    hi = s["steps"]
+                    state, cur = None, {}
+                    for en, pick, lab in r["trace"][:hi]:
+                        if lab[0] == "h5" and lab[2] == fn:
+                            if lab[1] == "open-a":
+                                cur[pick] = False
+                            elif lab[1] == "ds" and lab[3] == "output" and pick in cur:
+                                cur[pick] = True
+                            elif lab[1] == "close" and cur.pop(pick, False):
+                                state = "finished"        # this writer wrote the output itself and closed the file
+                    if state == "finished":
+                        return "after session %d: the writer of %s finished, yet the entry is incomplete: %r" % (k + 1, fn, names)
                     return "after session %d: %s is accepted by the interactive hit path but incomplete: %r #D10" % (k + 1, fn, names)
     if not crashed(case):
         return None
@@ -388,6 +427,10 @@ def o_c09(kind, case, r):
 
 
 def o_c08(kind, case, r):
+    if kind != "file":
+        w = early_entry(r)
+        if w:
+            return w
     if kind != "cache":
         return None
     for i_s, st in r["call_futures"].items():
